@@ -19,6 +19,16 @@ ASSUMPTIONS = ["a check rejection is recognised operationally (ValueError with t
                "python is not run with -O (with -O the switch is permanently off by design)"]
 BAD_VALUES = ["int0", "int1", "none", "str", "np_true", "float2", "list", "object", "np_false", "str_false"]
 CELL = [3.0, 4.0, 5.0, 80.0, 95.0, 100.0]
+CELLS = [[3.0, 4.0, 5.0, 80.0, 95.0, 100.0], [4.0, 4.0, 4.0, 90.0, 90.0, 90.0005], [4.0, 4.0, 4.0, 90.0, 90.0, 90.0], [3.2, 3.2, 5.1, 90.0, 90.0, 120.0],
+         [5.0, 6.0, 7.0, 90.0, 105.0, 90.0], [4.0, 4.00004, 4.0, 89.9996, 90.0, 90.0003]]
+
+
+def cell_of(op):
+    """the unit cell of a call: one of a few lattices (oblique, exactly / nearly cubic, hexagonal, monoclinic), each call
+    a relative 0 .. 5e-5 away from the nominal one (successive grains of one phase never have identical cells)"""
+    c = CELLS[op.get("cell", 0) % len(CELLS)]
+    d = op.get("dcell", 0.0)
+    return [c[0] * (1 + d), c[1] * (1 - d), c[2] * (1 + 0.5 * d), c[3], c[4], c[5]]
 OWN_ERRORS = ("Wrong trace of U", "_arctan2()")
 U_APIS = ["u_to_euler", "u_to_rod", "u_to_ubi", "Umis", "Umis2", "UmisBoth"]
 MODS = ["tools", "laue"]
@@ -98,7 +108,7 @@ class Sim(object):
         if api == "u_to_rod":
             return lambda: m.u_to_rod(U)
         if api == "u_to_ubi":
-            return lambda: m.u_to_ubi(U, CELL)
+            return lambda: m.u_to_ubi(U, cell_of(op))
         if api == "Umis":
             return lambda: symmetry.Umis(U, np.eye(3), op["sys"])
         if api == "Umis2":
@@ -110,7 +120,11 @@ class Sim(object):
             return lambda: m.euler_to_u(a[0], a[1], a[2])
         f = O.TWO_PI if op.get("mod") == "tools" else 1.0
         if api in ("ubi_to_u", "ubi_to_u_and_eps", "ubi_to_rod"):
-            B = np.asarray(m.form_b_mat(CELL), float)
+            cell_ = cell_of(op)
+            G_, Gs_, V_ = O.metric(cell_)
+            B = f * np.linalg.cholesky(Gs_).T       # own B (upper triangular, B'B = f^2 G*): the UBI does not come from the library
+            if B[0, 0] < 0:
+                B = -B
             ubi = f * np.linalg.inv(U @ B)
             if op.get("swap"):
                 ubi = ubi[[1, 0, 2], :]
@@ -118,9 +132,9 @@ class Sim(object):
                 return lambda: m.ubi_to_u(ubi)
             if api == "ubi_to_rod":
                 return lambda: m.ubi_to_rod(ubi)
-            return lambda: m.ubi_to_u_and_eps(ubi, CELL)
+            return lambda: m.ubi_to_u_and_eps(ubi, cell_)
         if api == "ub_to_u_b":
-            B = np.asarray(m.form_b_mat(CELL), float)
+            B = np.asarray(m.form_b_mat(cell_of(op)), float)
             UB = U @ B
             if op.get("neg"):
                 UB = UB @ np.diag([1.0, 1.0, -1.0])
@@ -261,11 +275,12 @@ def make_machine(ctx):
         def assign_bad(self, tag):
             self.step({"op": "assign_bad", "tag": tag})
 
-        @rule(U=valid_U(), mod=st.sampled_from(MODS), api=st.sampled_from(U_APIS + ["ubi_to_u", "ubi_to_u_and_eps", "ubi_to_rod", "ub_to_u_b"]), sys=st.integers(1, 7), shared=st.booleans())
-        def valid_matrix(self, U, mod, api, sys, shared):
+        @rule(U=valid_U(), mod=st.sampled_from(MODS), api=st.sampled_from(U_APIS + ["ubi_to_u", "ubi_to_u_and_eps", "ubi_to_rod", "ub_to_u_b"]), sys=st.integers(1, 7), shared=st.booleans(),
+              cell=st.integers(0, 5), dcell=st.sampled_from([0.0, 1e-5, -2e-5, 4e-5, 1e-3]))
+        def valid_matrix(self, U, mod, api, sys, shared, cell, dcell):
             if api in ("ubi_to_u", "ubi_to_u_and_eps", "ubi_to_rod", "ub_to_u_b") and U["kind"] == "noise7":
                 U = dict(U, kind="exact")        # these take a UBI / UB built from an exact rotation
-            self.step({"op": "call", "valid": True, "api": api, "mod": mod, "U": U, "sys": sys, "shared": shared})
+            self.step({"op": "call", "valid": True, "api": api, "mod": mod, "U": U, "sys": sys, "shared": shared, "cell": cell, "dcell": dcell})
 
         @rule(U=invalid_U(), mod=st.sampled_from(MODS), api=st.sampled_from(U_APIS), sys=st.integers(1, 7), shared=st.booleans())
         def invalid_matrix(self, U, mod, api, sys, shared):
